@@ -4,6 +4,7 @@ import (
 	"bytes"
 	"context"
 	"fmt"
+	"strings"
 	"sync"
 	"time"
 
@@ -223,8 +224,15 @@ func (c *cursorManager) getCursorsPartitionID(cursorKey []byte) (int32, *status.
 	return cursorsPartitionID, nil
 }
 
+// cursorKeyEscaper escapes the separator used in cursor keys.
+var cursorKeyEscaper = strings.NewReplacer(`\`, `\\`, ",", `\,`)
+
 func (c *cursorManager) getCursorKey(cursorID, streamName string, partitionID int32) []byte {
-	return []byte(fmt.Sprintf("%s,%s,%d", cursorID, streamName, partitionID))
+	// Escape the separator so that two different (cursor id, stream) pairs
+	// cannot produce the same key, e.g. ("a,b", "c") and ("a", "b,c"). Ids and
+	// names without a comma or backslash keep the key they always had.
+	return []byte(fmt.Sprintf("%s,%s,%d",
+		cursorKeyEscaper.Replace(cursorID), cursorKeyEscaper.Replace(streamName), partitionID))
 }
 
 func (c *cursorManager) getLatestCursorOffset(ctx context.Context, cursorKey []byte, partition *partition) (
